@@ -64,7 +64,9 @@ func NewHttpContext(w http.ResponseWriter, r *http.Request) *HttpContext {
 	go func() {
 		select {
 		case <-c.ctx.Done():
+			c.mu.Lock()
 			c.Flush()
+			c.mu.Unlock()
 			c.Emit("close")
 		case <-c.done:
 			c.Emit("close")
